@@ -37,6 +37,34 @@ def pure(rec, op, key, fn, args, mech=None):
     return err
 
 
+def repo_tests(ctx, mode, tests):
+    """Extra workload (thorough tier, shard 0): the repository's own tests under the monitor."""
+    import json, os, subprocess, tempfile
+    from vf import repo_root, VERIF_ROOT, PYTHON
+    from wavespectra.partition import specpart
+    rec = ctx.rec
+    fd, out = tempfile.mkstemp(suffix=".json")
+    os.close(fd)
+    env = dict(os.environ, PYTHONPATH=VERIF_ROOT + os.pathsep + repo_root(), VF_SO=specpart.__file__, VF_PLUGIN_OUT=out, VF_PLUGIN_MODE=mode, MPLBACKEND="Agg")
+    try:
+        subprocess.run([PYTHON, "-m", "pytest", "-q", "-p", "no:cacheprovider", "-p", "vf.pytest_plugin", "-x", "--timeout=900"] + tests,
+                       cwd=repo_root(), env=env, capture_output=True, text=True, timeout=3000)
+        res = json.load(open(out))
+    except Exception as e:
+        rec.skip("repo_tests", "could not run the repository tests under the monitor: %r" % (e,))
+        return
+    finally:
+        if os.path.exists(out):
+            os.remove(out)
+    for op, n in res["ok"].items():
+        for _ in range(n):
+            rec.ok(op, "repository test-suite workload")
+    for b in res["bad"]:
+        rec.bad(b["op"], b["test"], b["detail"], b["mech"])
+    for k, n in res["skip"].items():
+        rec.skip(k, "x%d" % n)
+
+
 def run(ctx):
     import xarray as xr
     import wavespectra
@@ -59,6 +87,8 @@ def run(ctx):
                 shutil.rmtree(d, ignore_errors=True)
     finally:
         shutil.rmtree(tmp, ignore_errors=True)
+    if ctx.thorough and ctx.shard == 0 and ctx.only is None:
+        repo_tests(ctx, "c17", ["tests/core", "tests/test_partition.py", "tests/construct", "tests/io/test_swan_ascii.py", "tests/io/test_triaxys.py"])
 
 
 def make_x(rng, xr, backing=None):
